@@ -285,6 +285,25 @@ fn run_value(case: &Case, obs: &mut Obs) -> Verdict {
                     }
                 } else if *i == model.len() {
                     let free = cap - model.len();
+                    if free <= 2 {
+                        // "a write at the current height pushes": the same fullness rule as push on an equal stack
+                        let mut probe = ValueStack::new(cap);
+                        for x in model.iter() {
+                            let _ = probe.push(Value::Integer(*x));
+                        }
+                        if probe.len() == model.len() {
+                            let push_ok = probe.push(Value::Integer(*v)).is_ok();
+                            obs.inc("value:set_at_height_vs_push_at_brim");
+                            if push_ok != r.is_ok() {
+                                return viol(
+                                    k,
+                                    name,
+                                    "differs-from-push",
+                                    format!("step {step}: with {} values in a stack of capacity {cap}, set at the current height {} but push {}", model.len(), if r.is_ok() { "succeeds" } else { "fails" }, if push_ok { "succeeds" } else { "fails" }),
+                                );
+                            }
+                        }
+                    }
                     match r {
                         Ok(_) => {
                             if free == 0 {
